@@ -130,10 +130,12 @@ func ownerName(p *Prog, fn *ssa.Function) string {
 	}
 	if p.GoOnly[fn] {
 		// a named function that only ever runs on a spawned goroutine is part of that goroutine's body
-		q := *p
-		q.GoOnly = nil
-		return "goroutine of " + ownerName(&q, fn)
+		return "goroutine of " + plainOwner(fn)
 	}
+	return plainOwner(fn)
+}
+
+func plainOwner(fn *ssa.Function) string {
 	if fn.Signature.Recv() != nil {
 		if n := named(fn.Signature.Recv().Type()); n != nil {
 			return "(*" + n.Obj().Name() + ")"
